@@ -317,6 +317,10 @@ known("KF-C02-07", "C02", D, r"Decoder.*", r"stream-differs-from-buffer", r"(err
       'a >512-byte document with \\u00XX escapes decodes with Unmarshal but fails or differs with Decoder', "see KF-C04-STREAM / C09", "other stream-only disagreements on documents larger than the initial buffer", "see C09")
 
 
+# ------------------------------------------------------------------ C07
+known("KF-C07-01", "C07", "twin", None, r"unaddressed-storage-differs:nil->non-nil", r"bytes.* @ slice\(elem1\):null",
+      'null into a pre-populated []byte field keeps the old bytes (encoding/json sets nil)', "see KF-C02-05", "see KF-C02-05", "see KF-C02-05")
+
 json.dump({"comment": "generated by tools/gen_known.py; never written at check time", "findings": F},
           open(os.path.join(os.path.dirname(os.path.abspath(__file__)), "..", "known_findings.json"), "w"), indent=1, ensure_ascii=False)
 print(len(F), "entries")
